@@ -25,17 +25,17 @@ open Lex
 
 /-- A line consisting of whitespace and/or a comment yields no tokens and keeps the carried
 string-literal state (`pending`), for every line number and every pending state. -/
-theorem blank_line_noop (lno : Nat) (pending ln : String) (h : blankTail ln.toList = true) :
+theorem blank_line_noop (lno : Nat) (pending : Option String) (ln : String) (h : blankTail ln.toList = true) :
     Lex.line lno pending ln = .ok { toks := [], pending := pending, endCol := utf8Len ln.toList + 1 } :=
   line_blank lno pending ln h
 
 /-- the empty line -/
-theorem empty_line_noop (lno : Nat) (pending : String) :
+theorem empty_line_noop (lno : Nat) (pending : Option String) :
     Lex.line lno pending "" = .ok { toks := [], pending := pending, endCol := 1 } :=
   line_blank lno pending "" rfl
 
 /-- whitespace-only lines (any mix of Unicode whitespace) -/
-theorem ws_line_noop (lno : Nat) (pending : String) (ws : List Char) (h : ws.all isWs = true) :
+theorem ws_line_noop (lno : Nat) (pending : Option String) (ws : List Char) (h : ws.all isWs = true) :
     Lex.line lno pending (String.ofList ws) =
       .ok { toks := [], pending := pending, endCol := utf8Len ws + 1 } := by
   have hb : blankTail ws = true := by
@@ -49,7 +49,7 @@ theorem ws_line_noop (lno : Nat) (pending : String) (ws : List Char) (h : ws.all
   simpa using this
 
 /-- comment-only lines: optional whitespace, `#` or `//`, then anything without a newline -/
-theorem comment_line_noop (lno : Nat) (pending : String) (ws body : List Char) (h : ws.all isWs = true)
+theorem comment_line_noop (lno : Nat) (pending : Option String) (ws body : List Char) (h : ws.all isWs = true)
     (hb : body.all (· != '\n') = true) :
     (Lex.line lno pending (String.ofList (ws ++ '#' :: body))).toOption.map (fun o => (o.toks, o.pending)) =
       some ([], pending) ∧
@@ -130,15 +130,15 @@ theorem trailing_comment_err (lno : Nat) (p ln c : String) (col : Nat) (hc : c.t
 
 /-- why the `"`-free hypothesis: an unterminated string swallows the "comment" -/
 theorem trailing_comment_can_close_string :
-    Lex.line 1 "" "\"abc" = .error 1 ∧
-    (Lex.line 1 "" ("\"abc" ++ " #" ++ " \"")).toOption.map (fun o => (o.toks, o.pending)) = some ([], "abc # ") := by
+    Lex.line 1 none "\"abc" = .error 1 ∧
+    (Lex.line 1 none ("\"abc" ++ " #" ++ " \"")).toOption.map (fun o => (o.toks, o.pending)) = some ([], some "abc # ") := by
   constructor <;> rfl
 
 /-- why the inserted text must start with whitespace: after a line ending in `/`, a directly
 appended `//c` swallows that `/` into the comment (2 tokens before, 1 after). -/
 theorem direct_slash_comment_differs :
-    (Lex.line 1 "" "a /").toOption.map (·.toks.length) = some 2 ∧
-    (Lex.line 1 "" ("a /" ++ "//c")).toOption.map (·.toks.length) = some 1 := by
+    (Lex.line 1 none "a /").toOption.map (·.toks.length) = some 2 ∧
+    (Lex.line 1 none ("a /" ++ "//c")).toOption.map (·.toks.length) = some 1 := by
   constructor <;> decide
 
 /-! ## 3. leading and trailing whitespace -/
@@ -175,7 +175,8 @@ theorem edge_whitespace_noop (lno : Nat) (p ln : String) (ws : List Char) (hws :
 
 /-! ## 4. lifting to the per-file loop (`cli.rs::process_file`) -/
 
-/-- `lexLoc` (only used for the position of an EOF parse error) is overwritten by every line -/
+/-- `lexLoc` (only used at end of input: it is the position of the literal flushed by `Lexer::finish`
+and the position reported for a parse error there) is overwritten by every line -/
 theorem lineLoop_lexLoc_irrelevant (env : Env) (ls : LoopSt) (z : Loc) (lno : Nat) (raw : Bytes) (rest : List Bytes) :
     lineLoop env { ls with lexLoc := z } lno (raw :: rest) = lineLoop env ls lno (raw :: rest) := by
   simp only [lineLoop]
@@ -218,8 +219,9 @@ theorem line_edit_noop (env : Env) (ls : LoopSt) (lno : Nat) (raw raw' next : By
     · rfl
     · rfl
 
-/-- The same edit on the last line: the run is the same except for `lexLoc`, whose only use is
-the position reported for a parse error at end of input. -/
+/-- The same edit on the last line: the run is the same except for `lexLoc`, whose only use is at end
+of input: the position given to a literal that is still pending there (which the parser then rejects,
+`C09.pending_at_eof_rejected`) and the position reported for a parse error at end of input. -/
 theorem line_edit_last (env : Env) (ls : LoopSt) (lno : Nat) (raw raw' : Bytes) (ln ln' : String)
     (out out' : LineOut)
     (hd : utf8Decode raw = some ln) (hd' : utf8Decode raw' = some ln')
@@ -332,12 +334,12 @@ theorem deterministic (env : Env) (budget : Option Nat) (src src' : Bytes) (h : 
 section Examples
 example : blankTail "  \t # a comment".toList = true := by decide
 example : blankTail "// x".toList = true := by decide
-example : (Lex.line 3 "" "let x = 5;").toOption.map (·.toks.length) = some 5 := by decide
+example : (Lex.line 3 none "let x = 5;").toOption.map (·.toks.length) = some 5 := by decide
 /-- a trailing comment after a real statement -/
-example : (Lex.line 3 "" ("let x = 5;" ++ " #" ++ " five")).toOption.map (·.toks) =
-    (Lex.line 3 "" "let x = 5;").toOption.map (·.toks) := by decide
+example : (Lex.line 3 none ("let x = 5;" ++ " #" ++ " five")).toOption.map (·.toks) =
+    (Lex.line 3 none "let x = 5;").toOption.map (·.toks) := by decide
 /-- leading whitespace shifts the first token from column 1 to column 4 (tab + U+3000) -/
-example : (Lex.line 3 "" (String.ofList ['\t', '　'] ++ "let x = 5;")).toOption.map
+example : (Lex.line 3 none (String.ofList ['\t', '　'] ++ "let x = 5;")).toOption.map
     (fun o => o.toks.head?.map (·.loc)) = some (some ⟨3, 5⟩) := by decide
 
 def exEnv : Env := ⟨⟨[]⟩, []⟩
